@@ -22,9 +22,14 @@ def same_failure(res, fp):
 def ddmin(prop, cfg, ops, fp, xgi=None, hooks=None, budget=400):
     """Returns a (locally) minimal sub-list of ops that still yields fingerprint fp."""
     tests = [0]
+    import time
+    t_end = time.time() + float(__import__("os").environ.get("VERIF_MINIMISE_WALL", "40"))
 
     def fails(candidate):
         tests[0] += 1
+        if time.time() > t_end:
+            tests[0] = budget  # wall cap (a hanging SUT makes every replay cost a step budget)
+            return False
         try:
             return same_failure(replay_ops(prop, cfg, candidate, xgi, hooks), fp)
         except Exception:
